@@ -66,3 +66,77 @@ VARIANTS += [
  dict(name='error-mapping-helper-inverted-stderr-test', file=P, expect='flagged(runner/error-mapping/executable)', find=MAP_OLD, replace=MAP_CALL, edits=[(P, MAP_HOOK, map_helper(cond='len(stderr) != 0'))]),
  dict(name='error-mapping-helper-drops-plugin-error', file=P, expect='flagged(runner/error-mapping/plugin-error)', find=MAP_OLD, replace=MAP_CALL, edits=[(P, MAP_HOOK, map_helper(ret='&PluginMalformedError{InnerError: execErr}'))]),
 ]
+
+# ---- second pass: the tail of run (everything after executor.Output) cut into helpers at other boundaries, single exit with an
+# ---- error local, switch instead of if/else, errors built by constructor functions, mapping as a method of a state struct
+TAIL_OLD = ('\tif err != nil {\n\t\tlogger.Errorf("plugin %s execution status: %v", req.Command(), err)\n' + MAP_OLD + '\t}\n\n'
+            '\tlogger.Debugf("Plugin %s response: %s", req.Command(), string(stdout))\n\t// deserialize response\n'
+            '\tif err = json.Unmarshal(stdout, resp); err != nil {\n\t\tlogger.Errorf("failed to unmarshal plugin %s response: %w", req.Command(), err)\n'
+            '\t\treturn &PluginMalformedError{\n\t\t\tMsg:        fmt.Sprintf("failed to unmarshal the response of %s command for plugin %s", req.Command(), pluginName),\n\t\t\tInnerError: err,\n\t\t}\n\t}\n\treturn nil\n}\n')
+def decode_helper(ok='return nil', bad='return &PluginMalformedError{\n\t\tMsg:        fmt.Sprintf("failed to unmarshal the response of %s command for plugin %s", command, pluginName),\n\t\tInnerError: err,\n\t}'):
+    return ('func decodeResponse(logger log.Logger, pluginName string, command plugin.Command, stdout []byte, resp interface{}) error {\n'
+            '\terr := json.Unmarshal(stdout, resp)\n\tif err == nil {\n\t\t' + ok + '\n\t}\n'
+            '\tlogger.Errorf("failed to unmarshal plugin %s response: %w", command, err)\n\t' + bad + '\n}\n\n')
+def tail_variant(name, expect, tail, helpers, why=None):
+    d = dict(name=name, file=P, expect=expect, find=TAIL_OLD, replace=tail + '}\n', edits=[(P, MAP_HOOK, helpers + MAP_HOOK)])
+    if why: d['why'] = why
+    return d
+def helper_only(h):
+    # map_helper() ends with the hook comment: strip it
+    return h[:-len(MAP_HOOK)]
+T_TWO = ('\tif err != nil {\n\t\treturn executionError(logger, pluginName, req.Command(), stderr, err)\n\t}\n\n'
+         '\tlogger.Debugf("Plugin %s response: %s", req.Command(), string(stdout))\n\treturn decodeResponse(logger, pluginName, req.Command(), stdout, resp)\n')
+# the whole tail in one helper that receives the three results of the commander
+def finish_helper(test='execErr != nil'):
+    return ('func finish(logger log.Logger, pluginName string, command plugin.Command, stdout, stderr []byte, execErr error, resp interface{}) error {\n'
+            '\tif ' + test + ' {\n\t\treturn executionError(logger, pluginName, command, stderr, execErr)\n\t}\n'
+            '\treturn decodeResponse(logger, pluginName, command, stdout, resp)\n}\n\n')
+T_FINISH = '\treturn finish(logger, pluginName, req.Command(), stdout, stderr, err, resp)\n'
+# single exit with an error local, decided by a switch
+def t_single(first='err == nil', second='len(stderr) == 0'):
+    a = {'err == nil': 'result = decodeResponse(logger, pluginName, req.Command(), stdout, resp)',
+         'len(stderr) == 0': 'result = &PluginExecutableFileError{InnerError: err}'}
+    return ('\tvar result error\n\tswitch {\n\tcase ' + first + ':\n\t\t' + a[first] + '\n\tcase ' + second + ':\n\t\t' + a[second] + '\n'
+            '\tdefault:\n\t\tresult = stderrError(stderr)\n\t}\n\treturn result\n')
+KEEP_STRINGS = 'var _ = strings.TrimSuffix // the import stays in use\n\n'
+def stderr_helper(ret='re'):
+    return ('func stderrError(stderr []byte) error {\n\tvar re proto.RequestError\n\tif jsonErr := json.Unmarshal(stderr, &re); jsonErr != nil {\n'
+            '\t\treturn &PluginMalformedError{InnerError: jsonErr}\n\t}\n\treturn ' + ret + '\n}\n\n' + KEEP_STRINGS)
+# errors built by constructor functions (one returning the concrete type, one returning error)
+CTORS = ('func newMalformed(msg string, inner error) *PluginMalformedError {\n\treturn &PluginMalformedError{Msg: msg, InnerError: inner}\n}\n\n'
+         'func newNotExecutable(inner error) error {\n\treturn &PluginExecutableFileError{InnerError: inner}\n}\n\n' + KEEP_STRINGS)
+def t_ctors(execv='newNotExecutable(err)'):
+    return ('\tif err != nil {\n\t\tif len(stderr) == 0 {\n\t\t\treturn ' + execv + '\n\t\t}\n\t\tvar re proto.RequestError\n'
+            '\t\tif jsonErr := json.Unmarshal(stderr, &re); jsonErr != nil {\n\t\t\treturn newMalformed("", jsonErr)\n\t\t}\n\t\treturn re\n\t}\n'
+            '\tif err = json.Unmarshal(stdout, resp); err != nil {\n\t\treturn newMalformed(fmt.Sprintf("failed to unmarshal the response of %s command for plugin %s", req.Command(), pluginName), err)\n\t}\n\treturn nil\n')
+# mapping as a method of a small state struct
+def mapper(cond='len(stderr) == 0'):
+    return ('type replyMapper struct {\n\tlogger     log.Logger\n\tpluginName string\n\tcommand    plugin.Command\n}\n\n'
+            'func (m replyMapper) failed(stderr []byte, execErr error) error {\n\tif ' + cond + ' {\n\t\tm.logger.Errorf("failed to execute the %s command for plugin %s: %s", m.command, m.pluginName, execErr)\n'
+            '\t\treturn &PluginExecutableFileError{InnerError: execErr}\n\t}\n\tvar re proto.RequestError\n\tif jsonErr := json.Unmarshal(stderr, &re); jsonErr != nil {\n'
+            '\t\treturn &PluginMalformedError{InnerError: jsonErr}\n\t}\n\treturn re\n}\n\n'
+            'func (m replyMapper) succeeded(stdout []byte, resp interface{}) error {\n\tif err := json.Unmarshal(stdout, resp); err != nil {\n'
+            '\t\treturn &PluginMalformedError{Msg: fmt.Sprintf("failed to unmarshal the response of %s command for plugin %s", m.command, m.pluginName), InnerError: err}\n\t}\n\treturn nil\n}\n\n' + KEEP_STRINGS)
+T_MAPPER = ('\tm := replyMapper{logger: logger, pluginName: pluginName, command: req.Command()}\n\tif err != nil {\n\t\treturn m.failed(stderr, err)\n\t}\n\treturn m.succeeded(stdout, resp)\n')
+# the helper's result held in a local and tested before it is returned
+T_LOCAL = ('\tif err != nil {\n\t\tmapped := executionError(logger, pluginName, req.Command(), stderr, err)\n\t\tlogger.Errorf("plugin %s execution status: %v", req.Command(), err)\n\t\treturn mapped\n\t}\n'
+           '\tif decodeErr := decodeResponse(logger, pluginName, req.Command(), stdout, resp); decodeErr != nil {\n\t\treturn decodeErr\n\t}\n\treturn nil\n')
+EXEC_H = helper_only(map_helper())
+VARIANTS += [
+ tail_variant('benign-decode-and-mapping-helpers', 'silent', T_TWO, EXEC_H + decode_helper(), why='both arms of the tail returned through helpers (held-out refactoring 1)'),
+ tail_variant('decode-helper-swallows-error', 'flagged(runner/reply-decodes)', T_TWO, EXEC_H + decode_helper(bad='return nil')),
+ tail_variant('decode-helper-untyped-error', 'flagged(runner/error-mapping/malformed-stdout)', T_TWO, EXEC_H + decode_helper(bad='return fmt.Errorf("failed to unmarshal the response of %s command for plugin %s: %w", command, pluginName, err)')),
+ tail_variant('decode-helper-inverted', 'flagged(runner/)', T_TWO, EXEC_H + decode_helper(ok='return &PluginMalformedError{InnerError: err}', bad='return nil')),
+ tail_variant('benign-whole-tail-helper', 'silent', T_FINISH, EXEC_H + decode_helper() + finish_helper(), why='the process-error test itself sits in the helper'),
+ tail_variant('whole-tail-helper-ignores-error-when-stdout', 'flagged(runner/process-error)', T_FINISH, EXEC_H + decode_helper() + finish_helper(test='execErr != nil && len(stdout) == 0')),
+ tail_variant('whole-tail-helper-swapped-streams', 'flagged(runner/)', '\treturn finish(logger, pluginName, req.Command(), stderr, stdout, err, resp)\n', EXEC_H + decode_helper() + finish_helper()),
+ tail_variant('benign-single-exit-switch', 'silent', t_single(), decode_helper() + stderr_helper(), why='single exit with an error local assigned in a switch'),
+ tail_variant('single-exit-switch-empty-stderr-first', 'flagged(runner/)', t_single(first='len(stderr) == 0', second='err == nil'), decode_helper() + stderr_helper()),
+ tail_variant('single-exit-switch-drops-plugin-error', 'flagged(runner/error-mapping/plugin-error)', t_single(), decode_helper() + stderr_helper(ret='&PluginMalformedError{InnerError: re}')),
+ tail_variant('benign-error-constructors', 'silent', t_ctors(), CTORS, why='error objects built by constructor functions'),
+ tail_variant('error-constructor-passes-raw-error', 'flagged(runner/error-mapping/executable)', t_ctors(execv='passThrough(err)'), CTORS + 'func passThrough(inner error) error {\n\treturn inner\n}\n\n'),
+ tail_variant('benign-mapper-struct', 'silent', T_MAPPER, mapper(), why='mapping as methods of a state struct'),
+ tail_variant('mapper-struct-inverted-stderr-test', 'flagged(runner/error-mapping/executable)', T_MAPPER, mapper(cond='len(stderr) != 0')),
+ tail_variant('benign-helper-result-in-local', 'silent', T_LOCAL, EXEC_H + decode_helper(), why='helper result held in a local before it is returned'),
+ tail_variant('helper-result-wrapped', 'flagged(runner/error-mapping/)', T_TWO.replace('return executionError(logger, pluginName, req.Command(), stderr, err)', 'return fmt.Errorf("plugin failed: %w", executionError(logger, pluginName, req.Command(), stderr, err))'), EXEC_H + decode_helper()),
+]
